@@ -383,6 +383,7 @@ structure Tables where
   watcherCancels : Bool               -- `processWatcher` calls `t.cancel()`
   startGuarded : Bool                 -- `establishGetSSE[Connection]` returns early on a closed flag
   startBounded : Bool                 -- legacy SSE `start`: the stream request ends with the caller's context while it is being established
+  getExitDeadlineFirst : Bool         -- Streamable server `handleGet`, exit path: the write deadline is set before the stream's write lock is taken
   backoffCtx : Bool                   -- `retry.Execute` waits between two attempts in a select that has the caller's context case (and never sleeps)
   startSelStream : Bool               -- legacy SSE `start`: the wait for the endpoint event has the case of the stream's context (Close() cancels it)
   deriving Repr
